@@ -2,6 +2,7 @@ package vc
 
 import (
 	"fmt"
+	"go/ast"
 	"go/token"
 	"go/types"
 	"os"
@@ -55,6 +56,9 @@ type Ctx struct {
 	// describing exactly the failing cases that are excused
 	FindingResidual map[string]string
 	afterEntry func(run *funcRun, st *State)
+	initStates map[*ssa.Package]*State
+	curState *State
+	assigned map[*ssa.Function]map[ast.Expr]string
 	singleImplAllowed map[string]bool
 	dispatch map[string]types.Type // interface key -> concrete type
 }
@@ -83,6 +87,9 @@ type funcRun struct {
 	modelVars []ModelVar
 	oldCache  map[*SNode]specVal
 	entryMeasure Term
+	entryMeasures []Term
+	entryAlloc Term
+	isInit bool
 }
 
 type siteInfo struct {
@@ -137,6 +144,8 @@ func Load(dir string, patterns []string) (*Ctx, error) {
 		singleImplAllowed: map[string]bool{},
 		dispatch: map[string]types.Type{},
 		FindingResidual: map[string]string{},
+		initStates: map[*ssa.Package]*State{},
+		assigned: map[*ssa.Function]map[ast.Expr]string{},
 	}
 	if len(pkgs) > 0 {
 		c.Fset = pkgs[0].Fset
@@ -422,6 +431,7 @@ func (c *Ctx) Fork(intBV bool) *Ctx {
 	n.Notes = nil
 	n.Errors = nil
 	n.summaries = map[*ssa.Function]*writeSummary{}
+	n.initStates = map[*ssa.Package]*State{}
 	n.FieldAnnos = map[string]*fieldMode{}
 	for k, v := range c.FieldAnnos {
 		n.FieldAnnos[k] = v
